@@ -14,6 +14,7 @@ import (
 	"fmt"
 	"math/big"
 	"sync"
+	"time"
 
 	"verif/harness/adapt/kzgs"
 	"verif/harness/gen"
@@ -204,7 +205,12 @@ func (s *srsCtx) verdict(op, cls string, err error, want bool, desc func() strin
 		w = "accept"
 	}
 	c.Class(N + "/" + op + "/" + cls + "/" + w)
+	if _, seen := sampled.LoadOrStore(op+"/"+w, true); !seen {
+		c.SampleOnce(op+"/"+w, map[string]any{"instance": N, "class": cls, "case": desc(), "library_error": fmt.Sprint(err), "oracle_accepts": want})
+	}
 }
+
+var sampled sync.Map
 
 // verifyPts calls Verify on explicit points whose discrete logarithms are (cS, h).
 func (s *srsCtx) verifyPts(vk any, cls string, C, H kzgs.Pt, cS, h, v, z *big.Int) {
@@ -265,7 +271,9 @@ func runCurve(c *mon.Ctx, in *kzgs.Inst) {
 					c.Fail(in.Name+"/harness/panic/"+s.name, "panic outside a guarded call: %v", r)
 				}
 			}()
+			t0 := time.Now()
 			s.fn()
+			c.Extra("wall_s."+in.Name+"."+s.name, float64(int(time.Since(t0).Seconds()*10))/10) // informative only
 		}()
 	}
 	wg.Wait()
